@@ -44,6 +44,9 @@ func mergeDocuments(docA did.Document, docB did.Document) did.Document {
 	sort.Slice(result.Authentication, authenticationSort(result))
 	sort.Slice(result.CapabilityInvocation, capabilityInvocationSort(result))
 	sort.Slice(result.CapabilityDelegation, capabilityDelegationSort(result))
+	sort.Slice(result.Controller, func(i, j int) bool {
+		return strings.Compare(result.Controller[i].String(), result.Controller[j].String()) == -1
+	})
 
 	return *result
 }
